@@ -24,8 +24,7 @@ META = dict(
 
 
 def run(c):
-    binhash = vlib.sha_file(vlib.BIN)
-    logf, res, cached = mx.produce(c, binhash)
+    logf, res, cached = mx.produce(c)
     c.judge(dict(fails=[tuple(x) for x in res["fails"]]), logf)
     st = res["stats"]
     if not c.violations:   # a violation on real-code states stands on its own; vacuity only matters for a clean result
